@@ -337,15 +337,26 @@ Definition match_next (known_alg : bytes -> bool) (data keytype : bytes) (public
   | _ => text
   end.
 
-(* SSHKey.export_public_key('openssh') and ('rfc4716'); comment = self._comment (None or non-empty) *)
-Definition export_openssh_public (alg blob : bytes) (comment : option bytes) : bytes :=
+(* SSHKey.export_public_key('openssh') and ('rfc4716') before fdd47d0: every comment was written
+   out unchecked; comment = self._comment (None or non-empty) *)
+Definition export_openssh_public_old (alg blob : bytes) (comment : option bytes) : bytes :=
   alg ++ [32] ++ b2a blob ++ (match comment with Some c => 32 :: c | None => [] end) ++ [NL].
 
 Definition SSH2_PUBLIC_KEY : bytes := [83;83;72;50;32;80;85;66;76;73;67;32;75;69;89].
-Definition export_rfc4716 (blob : bytes) (comment : option bytes) : bytes :=
+Definition export_rfc4716_old (blob : bytes) (comment : option bytes) : bytes :=
   wrap_base64 blob SSH2_PUBLIC_KEY
     (match comment with Some c => COMMENT_ ++ [COLON; 32; QUOTE] ++ c ++ [QUOTE; NL] | None => [] end)
     true 70.
+
+(* the code of record: a comment containing LF or CR is refused (None = KeyExportError) *)
+Definition comment_exportable (comment : option bytes) : bool :=
+  match comment with Some c => negb (has_byte 10 c || has_byte 13 c) | None => true end.
+
+Definition export_openssh_public (alg blob : bytes) (comment : option bytes) : option bytes :=
+  if comment_exportable comment then Some (export_openssh_public_old alg blob comment) else None.
+
+Definition export_rfc4716 (blob : bytes) (comment : option bytes) : option bytes :=
+  if comment_exportable comment then Some (export_rfc4716_old blob comment) else None.
 
 (* ------------------------------------------------------------------------------------------- *)
 (* SSH wire encodings *)
